@@ -209,9 +209,10 @@ func api1() map[string]apiFn {
 		"Sprint": func(r string, a, b, c int) {
 			_, s := recv1(r)
 			lo, hi := a, b
-			if hi > lo+200 {
-				hi = lo + 200
+			if r == "I" && hi > lo+200 {
+				hi = lo + 200 // an endless receiver computes every digit up to the end of the request
 			}
+			// finite receivers: any positions, however far (the row labels grow with the end of the request)
 			v1.Sprint(s, v1.Between(lo, hi), v1.DigitsPerRow(c))
 		},
 		"Fprint": func(r string, a, b, c int) {
@@ -313,9 +314,10 @@ func api2() map[string]apiFn {
 		"Sprint": func(r string, a, b, c int) {
 			_, s := recv2(r)
 			lo, hi := a, b
-			if hi > lo+200 {
-				hi = lo + 200
+			if r == "I" && hi > lo+200 {
+				hi = lo + 200 // an endless receiver computes every digit up to the end of the request
 			}
+			// finite receivers: any positions, however far (the row labels grow with the end of the request)
 			v2.Sprint(s, v2.Between(lo, hi), v2.DigitsPerRow(c))
 		},
 		"Fprint": func(r string, a, b, c int) {
@@ -502,9 +504,10 @@ func api3() map[string]apiFn {
 		"Sprint": func(r string, a, b, c int) {
 			_, s, _, _ := recv3(r)
 			lo, hi := a, b
-			if hi > lo+200 {
-				hi = lo + 200
+			if r == "I" && hi > lo+200 {
+				hi = lo + 200 // an endless receiver computes every digit up to the end of the request
 			}
+			// finite receivers: any positions, however far (the row labels grow with the end of the request)
 			v3.Sprint(s, v3.Between(lo, hi), v3.DigitsPerRow(c))
 		},
 		"Swrite": func(r string, a, b, c int) {
